@@ -65,6 +65,20 @@ func withEncLen(s RecSpec, target int) RecSpec {
 	return s
 }
 
+var tagHashPool = []int64{7, 0x5EED0C16, -3, 1, 7, 0x5EED0C16}
+
+// decorate turns some records of the queue / Append paths into unserialisable ones (kinds as allowed)
+// or lets the caller recycle the pack object of an earlier record (deterministic mode only).
+func (g *recGen) decorate(s *RecSpec, badKinds []string, reuse bool) {
+	r := g.r
+	switch {
+	case len(badKinds) > 0 && r.Chance(6):
+		s.Bad = r.PickStr(badKinds)
+	case reuse && s.ID > 1 && r.Chance(6):
+		s.ReuseOf = 1 + r.Intn(s.ID-1)
+	}
+}
+
 type recGen struct {
 	r      *vh.Rng
 	st     Settings
@@ -87,6 +101,14 @@ func (g *recGen) next() RecSpec {
 	}
 	if r.Chance(20) {
 		s.Fields = r.Intn(3)
+	}
+	// a caller-assigned tag hash from a small pool shared by all cases of the process: different tag
+	// tables under one hash, within a batch, across batches, across sender instances
+	if r.Chance(22) {
+		s.TagHash = r.Pick64(tagHashPool)
+		if r.Chance(70) && s.Tags == 0 {
+			s.Tags = 1 + r.Intn(3)
+		}
 	}
 	// unusual but legal shapes (nil Tags is not among them: the unchanged encoder dereferences it)
 	if r.Chance(10) {
@@ -190,6 +212,9 @@ func genCase(r *vh.Rng, thorough bool) *Case {
 	if r.Chance(12) {
 		return genBurst(r, c)
 	}
+	if r.Chance(8) {
+		return genBadMix(r, c)
+	}
 	g := newRecGen(r, st)
 	profile := r.Intn(5) // 0,1 queue  2 direct  3 append-only  4 mixed
 	n := 4 + r.Intn(36)
@@ -251,6 +276,11 @@ func genCase(r *vh.Rng, thorough bool) *Case {
 		switch k {
 		case "add", "append":
 			s := g.next()
+			if k == "add" {
+				g.decorate(&s, []string{"niltags", "niltags", "nilpack", "wrongtype"}, true)
+			} else {
+				g.decorate(&s, []string{"niltags", "nilpack"}, true)
+			}
 			o.R = &s
 		case "direct":
 			m := r.Intn(7)
@@ -258,7 +288,9 @@ func genCase(r *vh.Rng, thorough bool) *Case {
 				m = 0
 			}
 			for j := 0; j < m; j++ {
-				o.Rs = append(o.Rs, g.next())
+				x := g.next()
+				g.decorate(&x, nil, true) // SendDirect has no recover: only serialisable records
+				o.Rs = append(o.Rs, x)
 			}
 		case "config":
 			o.C = genConf(r)
@@ -315,6 +347,89 @@ func genFault(r *vh.Rng) string {
 	return "random:" + strconv.Itoa(r.PickInt([]int{20, 50, 80})) + ":" + strconv.Itoa(r.Intn(1000))
 }
 
+// genBadMix: unserialisable records at every position of a batch — first, middle, last, alone,
+// k in a row, right before a flush by size, by time, by the idle timeout and by the stop — on the
+// queue path and on the direct Append path.
+func genBadMix(r *vh.Rng, c *Case) *Case {
+	c.Settings = Settings{MaxWait: r.Pick64([]int64{50, 5000}), QueueCap: 1000, MaxBuf: r.Pick64([]int64{120, 300, 65536}), ZipMin: r.Pick64([]int64{0, 100, 1 << 30})}
+	g := newRecGen(r, c.Settings)
+	kinds := []string{"niltags", "nilpack", "wrongtype"}
+	viaQueue := r.Chance(60)
+	put := func(bad bool, dt int64, n int) {
+		s := g.next()
+		s.N = n
+		g.now += dt
+		s.Time = g.now
+		k := "append"
+		if viaQueue {
+			k = "add"
+		}
+		if bad {
+			s.Bad = r.PickStr(kinds)
+			if k == "append" && s.Bad == "wrongtype" {
+				s.Bad = "nilpack"
+			}
+		}
+		c.Ops = append(c.Ops, Op{K: k, R: &s})
+		if viaQueue && r.Chance(70) {
+			c.Ops = append(c.Ops, Op{K: "step"})
+		}
+	}
+	drain := func() {
+		if viaQueue {
+			for i := 0; i < 6; i++ {
+				c.Ops = append(c.Ops, Op{K: "step"})
+			}
+		}
+	}
+	batches := 3 + r.Intn(4)
+	for b := 0; b < batches; b++ {
+		switch r.Intn(8) {
+		case 0: // first
+			put(true, 0, 0)
+			put(false, 0, 10)
+			put(false, 0, 10)
+		case 1: // middle
+			put(false, 0, 10)
+			put(true, 0, 0)
+			put(false, 0, 10)
+		case 2: // last
+			put(false, 0, 10)
+			put(false, 0, 10)
+			put(true, 0, 0)
+		case 3: // alone in its batch
+			put(true, 0, 0)
+		case 4: // k in a row
+			put(false, 0, 5)
+			for i := 0; i < 2+r.Intn(3); i++ {
+				put(true, 0, 0)
+			}
+			put(false, 0, 5)
+		case 5: // right before a flush by size
+			put(false, 0, 10)
+			put(true, 0, 0)
+			put(false, 0, int(c.Settings.MaxBuf))
+		case 6: // right before a flush by time
+			put(false, 0, 10)
+			put(true, 0, 0)
+			put(false, c.Settings.MaxWait, 10)
+		case 7: // bad record with a time that would trigger the time flush
+			put(false, 0, 10)
+			put(true, c.Settings.MaxWait+5, 0)
+			put(false, 0, 10)
+		}
+		if r.Chance(60) {
+			drain() // … and the idle timeout after it
+		}
+	}
+	if r.Chance(50) {
+		put(false, 0, 10)
+		put(true, 0, 0)
+	}
+	c.Ops = append(c.Ops, Op{K: "stop"})
+	return c
+}
+
 // genBurst: producers outrun the consumer by more than the queue holds — k > capacity records are
 // added before any loop iteration (several rounds), then everything is consumed.
 func genBurst(r *vh.Rng, c *Case) *Case {
@@ -336,6 +451,7 @@ func genBurst(r *vh.Rng, c *Case) *Case {
 		k := capacity + 1 + r.Intn(capacity/2+4)
 		for i := 0; i < k; i++ {
 			s := g.next()
+			g.decorate(&s, []string{"niltags", "nilpack", "wrongtype"}, false)
 			if capacity == 1000 && s.N > 40 {
 				s.N = s.N % 40
 			}
@@ -420,6 +536,7 @@ func genFree(r *vh.Rng, thorough bool) *Case {
 	f.Producers = make([][]FreeItem, np)
 	for i := 0; i < per*np; i++ {
 		it := FreeItem{R: g.next()}
+		g.decorate(&it.R, []string{"niltags"}, false)
 		if per > 200 && it.R.N > 40 {
 			it.R.N %= 40
 		}
